@@ -338,7 +338,7 @@ def main(tier):
         rep.merge(d)
     for d in run_shards(shard_samples):
         rep.merge(d)
-    count = 6000 if tier == 'quick' else 200000
+    count = 6000 if tier == 'quick' else 2000000
     for d in run_shards(shard_stream, (count,)):
         rep.merge(d)
     shrink_violations(rep)
